@@ -64,7 +64,9 @@ func (c *Ctx) runPlainCase(pc PlainCase, split bool) []*PlainOutcome {
 		}
 	}
 	oc := &PlainOutcome{Case: pc, Gen: g, Dir: dir, Touched: touched, Stage: "ok"}
-	if g.Exit != 0 || g.Crash != "" || g.TimedOut || g.CPUKill {
+	if g.TimedOut && g.Crash == "" && !g.CPUKill {
+		oc.Stage = "timeout" // wall-clock watchdog: inconclusive (hangs are judged on CPU time)
+	} else if g.Exit != 0 || g.Crash != "" || g.CPUKill {
 		oc.Stage = "generate"
 	} else {
 		if hasTestForm(pc.Items) {
@@ -72,11 +74,13 @@ func (c *Ctx) runPlainCase(pc PlainCase, split bool) []*PlainOutcome {
 		} else {
 			oc.Build = c.Go(dir, "build", "./p")
 		}
-		if oc.Build.Exit != 0 {
+		if oc.Build.TimedOut {
+			oc.Stage = "timeout"
+		} else if oc.Build.Exit != 0 {
 			oc.Stage = "compile"
 		}
 	}
-	if oc.Stage == "ok" || !split {
+	if oc.Stage == "ok" || oc.Stage == "timeout" || !split {
 		return []*PlainOutcome{oc}
 	}
 	// isolation budget: a tree in which everything fails must not explode into thousands of runs
